@@ -391,12 +391,12 @@ class TreeBuilder(object):
     def generateImpliedEndTags(self, exclude=None):
         name = self.openElements[-1].name
         # XXX td, th and tr are not actually needed
-        if (name in frozenset(("dd", "dt", "li", "option", "optgroup", "p", "rp", "rt")) and
-                name != exclude):
+        while (name in frozenset(("dd", "dt", "li", "option", "optgroup", "p", "rp", "rt")) and
+               name != exclude):
             self.openElements.pop()
             # XXX This is not entirely what the specification says. We should
             # investigate it more closely.
-            self.generateImpliedEndTags(exclude)
+            name = self.openElements[-1].name
 
     def getDocument(self):
         """Return the final tree"""
